@@ -322,6 +322,13 @@ func (r *Run) Inconclusive(what string) {
 	r.mu.Unlock()
 }
 
+// InconclusiveList returns the inconclusive observations recorded so far.
+func (r *Run) InconclusiveList() []string {
+	r.mu.Lock()
+	defer r.mu.Unlock()
+	return append([]string(nil), r.inconclusive...)
+}
+
 // HarnessError marks the harness itself as broken (never a verdict on chess-3).
 func (r *Run) HarnessError(format string, a ...any) {
 	r.mu.Lock()
